@@ -98,7 +98,8 @@ def _gt(rng):
 def _fill(rng, pts, allow_gradient=True):
     r = rng.random()
     if r < 0.55 or not allow_gradient:
-        return Solid(_rgb(rng))
+        # sometimes the fill colour carries its own alpha (#RRGGBBAA)
+        return Solid(_rgb(rng), rng.choice([1.0, 1.0, 1.0, 128 / 255, 64 / 255]))
     bx, by, bw, bh = _bbox(pts)
     units = rng.choice(["userSpaceOnUse", "objectBoundingBox"])
     spread = rng.choice(["pad", "pad", "reflect", "repeat"])
@@ -181,7 +182,7 @@ def svg_text(g):
         attrs = f'd="{d}"'
         f = s.fill
         if isinstance(f, Solid):
-            attrs += f' fill="{_hex(f.rgb)}"'
+            attrs += f' fill="{_hex(f.rgb)}' + ("" if f.alpha == 1.0 else "%02X" % round(f.alpha * 255)) + '"'
         else:
             gid[0] += 1
             ident = f"grad{gid[0]}"
